@@ -3253,6 +3253,33 @@ def flags_from_try(tree: ast.Module) -> int:
     return count
 
 
+def drop_reraise_handlers(tree: ast.Module) -> int:
+    """`try: B` / `except X: raise` (every handler of the statement nothing but a bare re-raise) / `else: E` / `finally: F`
+    is `try: B; E` / `finally: F` - or plainly `B; E` without a finally: the handlers change nothing about any exception,
+    and `else` runs exactly when B completed."""
+    count = 0
+    for node in ast.walk(tree):
+        for field in ('body', 'orelse', 'finalbody'):
+            body = getattr(node, field, None)
+            if not isinstance(body, list):
+                continue
+            i = 0
+            while i < len(body):
+                st = body[i]
+                if isinstance(st, ast.Try) and st.handlers and all(
+                        len(h.body) == 1 and isinstance(h.body[0], ast.Raise) and h.body[0].exc is None and h.body[0].cause is None
+                        for h in st.handlers):
+                    inner = list(st.body) + list(st.orelse)
+                    if st.finalbody:
+                        st.body, st.handlers, st.orelse = inner, [], []
+                    else:
+                        body[i:i + 1] = inner
+                        i += len(inner) - 1
+                    count += 1
+                i += 1
+    return count
+
+
 def fold_negations(tree: ast.Module) -> int:
     """`not (a is not b)` -> `a is b`, `not (a is b)` -> `a is not b`, likewise `in` / `not in` (these pairs are exact
     negations of each other for every operand; `==` / `!=` are not and stay); `not not e` -> `e` where only the truth of the
